@@ -74,9 +74,13 @@ theorem budget_all (w : Nat) (rows : List (List Cell)) (len : Nat) (hlen : ∀ r
 theorem rdString_enc (t rest : Bytes) (h : t.length < 4294967296) :
     rdString (leBytes 4 t.length ++ (t ++ rest)) = .ok (t, rest) := by
   unfold rdString
+  rw [lenLt_false _ _ (by simp [leBytes_length])]
+  simp only [Bool.false_eq_true, if_false]
   rw [rdLE_leBytes]
   have : t.length % 256 ^ 4 = t.length := Nat.mod_eq_of_lt (by simpa using h)
   simp only [this]
+  rw [lenLt_false _ _ (by simp)]
+  simp only [Bool.false_eq_true, if_false]
   exact rdSlice_append t rest
 
 @[simp] theorem Res.bind_ok' {α β : Type} (a : α) (f : α → Res β) : (Res.ok a >>= f) = f a := rfl
@@ -87,7 +91,8 @@ theorem rdFields_enc (role mode r g b a flags tr ox oy w h dp len : Nat) (rest :
       (leBytes 4 w ++ (leBytes 4 h ++ (leBytes 2 dp ++ (leBytes 8 len ++ rest))))))))) =
     .ok (⟨role, mode, r, g, b, a, flags % 256 ^ 4, tr, ox % 256 ^ 4, oy % 256 ^ 4, w % 256 ^ 4, h % 256 ^ 4, dp % 256 ^ 2, len % 256 ^ 8⟩, rest) := by
   unfold rdFields
-  simp only [rdU8, List.drop, Res.bind_ok', rdLE_leBytes, Res.pure_eq]
+  rw [lenLt_false _ _ (by simp only [List.length_cons, List.length_append, leBytes_length]; omega)]
+  simp only [Bool.false_eq_true, if_false, rdU8, List.drop, Res.bind_ok', rdLE_leBytes, Res.pure_eq]
   rw [if_neg (by omega)]
 
 
@@ -187,7 +192,7 @@ theorem modeBytes_getD (m : Nat) (h : m < 3) : modeBytes.getD m 0 = m := by
   have : m = 0 ∨ m = 1 ∨ m = 2 := by omega
   rcases this with rfl | rfl | rfl <;> rfl
 
-theorem readRows_width0 (h : Nat) : readRows true 0 h [] = .ok [] := by
+theorem readRows_width0 (h : Nat) : readRows 0 h [] = .ok [] := by
   cases h <;> simp [readRows]
 
 theorem flatMap_encodeRow_width0 (rows : List (List Cell)) (h : ∀ r ∈ rows, r.length = 0) :
@@ -219,7 +224,7 @@ theorem decodeLayer_encode (l : Layer) (hw : l.wf = true) :
     rw [List.all_eq_true] at this
     exact this c hc
   -- reading the rows
-  have hrows : ∃ rows', readRows true l.width l.height data = .ok rows' ∧ rows'.length ≤ l.height ∧
+  have hrows : ∃ rows', readRows l.width l.height data = .ok rows' ∧ rows'.length ≤ l.height ∧
       (∀ r ∈ rows', r.length ≤ l.width) ∧
       ∀ x y, x < l.width → y < l.height →
         (match gridAt rows' 0 x y with | some c => optCell c | none => none) = visAt l x y := by
@@ -271,7 +276,7 @@ theorem decodeLayer_encode (l : Layer) (hw : l.wf = true) :
           if f.roleByte = 1 then Res.fail Fail.imageLayer
           else if lenLt data f.length = true then Res.fail Fail.errLength
           else if f.width ≥ 2147483648 ∨ f.height ≥ 2147483648 then Res.fail Fail.negSize
-          else match readRows true f.width f.height data with
+          else match readRows f.width f.height data with
             | Res.fail e => Res.fail e
             | Res.ok rows => Res.ok (decodeFlags (applyRows (freshLayer l.title f) 0 rows) f.flags)) with
         | Res.fail e => Res.fail e
